@@ -34,13 +34,22 @@ RULE = ("Hypothesis draws well-formed definition closures (vlib.defgen.programs:
         "id / struct named like something the generated Python module imports or defines for itself (27 names x 5 kinds, rotating slice), definitions that "
         "need padding compiled with auto_pad off and validation on (through compile() keywords, the CLI flag and compiler_options in the YAML; "
         "hand-written layouts and the generator's layout profile), generated programs of the generator's 'fractional-length' and 'reserved-field-name' classes, plus a rotating slice "
-        "(all in the thorough tier) of the generator's 804-case conflict table, plus the 29 kinds of vlib.defgen.add_hygiene (a constant that is .inf / -.inf / .nan or a YAML "
+        "(all in the thorough tier) of the generator's 804-case conflict table, plus the 40 kinds of vlib.defgen.add_hygiene (a constant that is .inf / -.inf / .nan or a YAML "
         "bool; a constant, string constant, alias, host, module, struct, message, signal or field whose name is no identifier - MAX-N, N.MAX, MAX N; an alias, struct, "
         "message or signal named like a native type; a field named like a Python descriptor class, like the type of a later field, like a Python keyword, like a C "
         "keyword; a constant named like a field), each once per run on a two-message base and one random program in eight; a rejection is only counted, an accepted one gets the same cross-language "
         "comparison with the parser model as reference.  The random programs include array lengths whose '/' does not come out whole and is used further ((BITS / 8) * N, "
         "N / 2 + N / 2: true division, truncated once), constant and length expressions with << >> | & ^ ~ // % ** and unary signs, expressions naming 11-16 constants and "
-        "string constants with line breaks / tabs (the covering family has hand-written members of each).  Non-trivial = accepted program with >=2 distinct "
+        "string constants with line breaks / tabs (the covering family has hand-written members of each).  One program in nine (and two covering closures, core names and "
+        "user names) has definitions whose NAME is in use in another namespace of the closure or of the imported core definitions - names are unique per namespace only: a module id "
+        "called like a message / signal / struct / constant / string constant / alias / host id (RTMA_LOG, EXIT, DATA_SET, MAX_MODULES, LOCAL_HOST), a host id called like a message, "
+        "signal or module id (TIMING_MESSAGE, QUICK_LOGGER), a message or signal called like a module id or host id (MESSAGE_MANAGER, LOCAL_HOST), a struct, constant, string constant "
+        "or alias called like a module id; the new structs / messages / aliases are used as field types; for the C header only the core definitions OF THE SAME NAMESPACE are "
+        "left out of the comparison - or a message / signal called MM_ERROR, MM_INFO or DEBUG_TEXT (obsolete core messages the MATLAB back end still writes itself), or a struct / "
+        "alias / message called ``string`` (a helper of the JavaScript module's type table) used as a field type - and string constants whose lines look like YAML to a line-by-line "
+        "reader (host:port, key: value, - item, # comment, block / flow indicators, leading and trailing blanks; a covering closure holds every text of the vocabulary).  The hygiene "
+        "near misses include a host id that shares its name with a constant / string constant / alias / struct of the closure or of the core definitions (the Python module writes all "
+        "five under their bare name).  Non-trivial = accepted program with >=2 distinct "
         "native widths and >=1 nested or array field; distinct = set of (resolved native type, scalar/array) + nesting depth + options.")
 ASSUME = [
     "no MATLAB/Octave in the sandbox: the .m output is executed by vlib.langs.matlab_run, an interpreter for the statement subset the back end emits",
@@ -50,7 +59,8 @@ ASSUME = [
     "constant and array-length expressions are arithmetic on numbers once the constant names are replaced by their values: the operators the documentation shows (* + - and parentheses), '/' (true division; an array length is truncated once, at the end) and the other operators of that arithmetic (<< >> | & ^ ~ // % ** unary + -) on whole numbers",
     "hygiene near misses (non-identifier names, native type names, keyword / descriptor field names, non-finite or boolean constants, constants named like fields) may be refused by the compiler; only an accepted one whose outputs disagree or do not load is reported, under near-miss-accepted/<construct>/<language>-<aspect>",
     "a length-1 array and a scalar are the same bytes and are treated as equal (the Python back end emits a scalar, C emits x[1])",
-    "the C header is probed only for closures that do not use core type names (the header omits the core definitions on purpose: C clients include RTMA.h, which is not part of the repository)",
+    "the C header is probed only for closures that do not use core type names (the header omits the core definitions on purpose: C clients include RTMA.h, which is not part of the repository); a user definition that merely shares its NAME with a core definition of another namespace (module id RTMA_LOG, message QUICK_LOGGER) does not use it and must be in the header",
+    "a host id called like a constant / string constant / alias / struct is a near miss (the parser keeps host ids in a namespace of their own, the Python module does not): refusal is accepted, an accepted one whose outputs disagree is reported under near-miss-accepted/host-shares-name/...",
     "programs are compiled with validate_alignment on (switching it off is the user's explicit opt-out of the layout guarantee)",
     "hash values are compared between the languages and the parser model; what the hash must depend on is C13",
     "programs the compiler rejects or that make it crash are outside 'every definition file the compiler accepts' and are C15's subject; they are counted only",
@@ -64,6 +74,10 @@ PREFIXES = ("MT_", "MID_", "HID_", "defines_")
 # array lengths whose '/' does not come out whole and is used further ((BITS / 8) * N, N / 2 + N / 2); constant and length expressions with
 # shifts, bitwise operators, floor division, remainder, power and unary signs
 EXPRS = ("inexact-div-length", "rich-operators", "many-symbols", "string-control")
+# names: a definition called like a definition of ANOTHER namespace of the closure or of the imported core definitions (module id RTMA_LOG,
+# message QUICK_LOGGER, host id TIMING_MESSAGE ...); a message called like the obsolete core messages the MATLAB back end still writes by
+# itself (MM_ERROR, MM_INFO, DEBUG_TEXT); a struct / alias / message called like the JavaScript back end's helper type "string"
+NAMES = ("cross-namespace-names", "backend-literal-names")
 
 
 # ------------------------------------------------------------------------------------------------
@@ -369,6 +383,28 @@ def _qualifier(ref, aspect, where):
     return ""
 
 
+def _field_type_name(ref, where):
+    """Declared type name of the field a difference is reported at ("MSG.field" or "MSG.outer.inner")."""
+    parts = where.split(".")
+    cur = ref["defs"].get(parts[0])
+    tn = None
+    for part in parts[1:]:
+        f = next((x for x in cur["fields"] if x["name"] == part), None) if cur else None
+        if f is None:
+            return None
+        tn = f.get("tn")
+        cur = ref["defs"].get(f["t"].get("ref")) if f["t"]["k"] == "struct" else None
+    return tn
+
+
+def _shared_name(ex, name):
+    """Is ``name`` in use in more than one namespace (constants/strings/aliases/structs/messages, module ids, host ids) of the closure
+    and the imported core definitions?"""
+    ps = ex.psig
+    spaces = [set(ps["constants"]) | set(ps["strings"]) | set(ps["aliases"]) | set(ps["defs"]), set(ps["mid"]), set(ps["hid"])]
+    return sum(1 for sp in spaces if name in sp) > 1
+
+
 def case_findings(program: G.Program, ex: L.Exam):
     """[(key, what)] for one examined program."""
     out = []
@@ -378,6 +414,15 @@ def case_findings(program: G.Program, ex: L.Exam):
         q = _qualifier(ref, aspect, where)
         if lang == "c" and aspect.startswith("load/") and "dir-core_defs" in program.classes and q != "generated-name-collision":
             q = "user-dir-named-core_defs"
+        top = where.split(".")[0]
+        if "backend-literal-names" in program.classes:
+            if lang == "matlab" and top in G.MATLAB_LITERAL_MESSAGES:
+                q = "message-named-like-obsolete-core-message"
+            elif lang == "js" and aspect == "element-kind" and _field_type_name(ref, where) in G.JS_PSEUDO_TYPES:
+                q = "definition-named-string"
+        if "cross-namespace-names" in program.classes and lang == "c" and q in ("", "user-dir-named-core_defs") and \
+                (aspect.startswith("load/") or aspect.endswith("-missing")) and (aspect.startswith("load/") or _shared_name(ex, top)):
+            q = "name-shared-with-another-namespace"
         key = f"{lang}/{aspect}" + (f"/{q}" if q else "")
         out.append((key, f"{lang} output disagrees with the reference on {aspect} at {where or 'module level'}: {text}"))
 
@@ -468,7 +513,8 @@ def run_case(E: L.Examiner, program: G.Program, res: Result = None):
         res.count("auto-pad" if program.auto_pad else "no-auto-pad")
         for c in program.classes:
             if c in ALLOW or c in FORMER or c in ("needs-padding", "alias-field", "struct-array", "reuse", "message-in-message", "expr-length", "covering",
-                                                   "const-float-17", "const-expr-float", "const-float", "const-expr", "div-length") or c in EXPRS:
+                                                   "const-float-17", "const-expr-float", "const-float", "const-expr", "div-length", "string-yamlish",
+                                                   "cross-namespace/core", "cross-namespace/user") or c in EXPRS or c in NAMES or c.startswith("backend-literal/"):
                 res.count("class/" + c)
         nontrivial, sh = shape_of(program)
         if nontrivial:
@@ -756,6 +802,13 @@ def shard(seed, n, idx, quick):
         one(substring_program(idx % 2 == 0), "covering-family")
         one(alias_chain_program(idx % 4 < 2, idx % 2), "covering-family")
         res.evaluations += 2
+        # every accepted way of calling a definition like a definition of another namespace (core names with the core imported), and every
+        # text of the generator's string vocabulary (a quarter per shard): line breaks, lines that look like YAML, colons glued to text ...
+        if idx % 4 < 2:
+            one(G.build_cross_namespace_cover_program(idx % 4 == 0), "covering-family")
+        else:
+            one(G.build_string_cover_program(idx % 4 == 2, part=idx // 4, parts=4), "covering-family")
+        res.evaluations += 1
         for j, (kind, how, src, arg) in enumerate(misaligned_family()):
             if j % 16 == idx:
                 fnd = run_near_miss(E, kind, src, arg, res) if how == "kwargs" else run_near_miss_cli(E, kind, src, arg, res)
@@ -823,7 +876,7 @@ def shard(seed, n, idx, quick):
         # Every kind once per run on the smallest base (kind j on shard j mod 16)
         for j, kind in enumerate(G.HYGIENE_KINDS):
             if j % 16 == idx:
-                hygiene(G.add_hygiene(G.minimal_program(import_coredefs=False), G.RandomChooser(seed * 100 + j), kind))
+                hygiene(G.add_hygiene(G.minimal_program(import_coredefs=G.hygiene_needs_core(kind)), G.RandomChooser(seed * 100 + j), kind))
                 res.evaluations += 1
 
         def body(v):
@@ -842,7 +895,8 @@ def shard(seed, n, idx, quick):
         former = G.programs(validate_alignment=True, allow=FORMER, skeleton=True)
         nocore = G.programs(validate_alignment=True, import_coredefs=False, rich=True, allow=EXPRS)
         hyg = G.hygiene_programs(validate_alignment=True, max_files=3)
-        hyp_run(body, st.tuples(st.one_of(base, nocore, former, nocore, opt, former, nocore, hyg), st.integers(0, 2 ** 32)), seed, n, res, collect=True)
+        names = G.programs(validate_alignment=True, allow=NAMES + ("string-control",), max_files=4)
+        hyp_run(body, st.tuples(st.one_of(base, nocore, former, nocore, opt, former, nocore, hyg, names), st.integers(0, 2 ** 32)), seed, n, res, collect=True)
     finally:
         E.close()
         L.cleanup()
